@@ -1,7 +1,7 @@
 """C05 — bucket lifecycle behaves as a keyed map (decidable clauses)."""
 import ast
 
-from ..cfg import cfg_of
+from ..cfg import cfg_of, membership
 from ..model import norm, parent, walk_own, walk_with_nested_exprs
 from ..rules_store import bparam, is_param_ref, memory_containers
 from ..sqlmodel import local_defs, peewee_chains, single_def, sql_sites
@@ -15,8 +15,12 @@ CREATE_MAP = {"bucket_id": "id", "type_id": "type", "client": "client", "hostnam
 UPDATE_MAP = {"type_id": "type", "client": "client", "hostname": "hostname", "name": "name", "data": "data"}
 
 
-def _strip_json(e):
+def _strip_json(e, fi=None):
     """json.dumps(x or {}) / json.dumps(x) / x or {} / copy.deepcopy(x) if x else {} ... -> the parameter name inside"""
+    if fi is not None:
+        from ..trace import resolve
+
+        e = resolve(e, fi)
     names = [n.id for n in ast.walk(e) if isinstance(n, ast.Name) and n.id not in ("json", "copy", "deepcopy")]
     names = [n for n in names if n not in ("dict",)]
     return names[0] if len(set(names)) == 1 else None
@@ -32,8 +36,10 @@ def field_tables(prog, rep):
         s = ins[0]
         for col, v in zip(s.stmt.columns, s.stmt.values):
             if v.kind == "param":
-                p = _strip_json(s.bindings[v.index])
-                col_of_param[p] = (col, norm(s.bindings[v.index]))
+                from ..trace import resolve
+
+                p = _strip_json(s.bindings[v.index], s.fi)
+                col_of_param[p] = (col, norm(resolve(s.bindings[v.index], s.fi)))
     else:
         rep.undecided("FIELDS", "SqliteStorage.create_bucket", "INSERT buckets", f"{len(ins)} statements")
     # ---- sqlite reader: SELECT positions -> keys, in buckets() and get_metadata()
@@ -202,13 +208,12 @@ def delete_coverage(prog, rep):
             rep.violation("DELETE-ALL", fi.short, f"{m}.delete()", f"deleting a bucket leaves its `{m}` rows", fi.loc())
         else:
             ok = chs[m].terminal == "execute"
-            # on every path where the bucket exists
+            # on every path where the bucket exists: drop the edges that assert its absence, then the delete must
+            # separate the entry from the normal exit
             node = g.node_of(chs[m].node)
-            memb = [n for n in g.nodes if n.kind == "branch" and norm(n.ast) == f"{bparam(fi)} in self.bucket_keys"]
-            okp = False
-            if memb:
-                t_succ = [v for v, lab in g.succ[memb[0].id] if lab and lab[2] is True]
-                okp = all(v == node or g.exit not in g.reach_avoiding([v], avoid={node}, include_start=True) for v in t_succ)
+            key, cont = bparam(fi), "self.bucket_keys"
+            reach = g.reach_filtered(g.entry, lambda u, v, lab: membership(lab, key, cont) is not False and v != node)
+            okp = g.exit not in reach
             rep.check(ok and okp, "DELETE-ALL", fi.short, f"{m}.delete()", "executed on every path where the bucket exists", f"`{m}` rows are not deleted (chain not executed, or skipped on some path)", chs[m].loc())
     # memory
     fi = prog.func("MemoryStorage.delete_bucket")
@@ -244,10 +249,10 @@ def caches_follow(prog, rep):
     raises = [n for n in gg.nodes if n.kind == "stmt" and isinstance(n.ast, ast.Raise) and norm(n.ast.exc).startswith("KeyError")]
     okk = False
     if raises:
-        r = gg.reach_filtered(gg.entry, lambda u, v, lab: not (bool(lab) and lab[0] == "cond" and norm(lab[1]) == "bucket_id in self.buckets()" and lab[2] is False))
+        r = gg.reach_filtered(gg.entry, lambda u, v, lab: membership(lab, "bucket_id", "self.buckets()") is not False)
         okk = raises[0].id not in r
         # and the not-in path cannot reach a normal return
-        falses = [v for n in gg.nodes if n.kind == "branch" and norm(n.ast) == "bucket_id in self.buckets()" for v, lab in gg.succ[n.id] if lab and lab[2] is False]
+        falses = [v for n in gg.nodes if n.kind == "branch" for v, lab in gg.succ[n.id] if membership(lab, "bucket_id", "self.buckets()") is False]
         okk = okk and all(gg.exit not in gg.reach_avoiding([v], include_start=True) for v in falses) and bool(falses)
     rep.check(okk, "CACHES", gi.short, "KeyError for unknown ids", "raise KeyError when the id is not in buckets()", "looking up a bucket that does not exist does not raise KeyError", gi.loc())
     for m, what in (("create_bucket", "BucketModel.create"), ("delete_bucket", "BucketModel.delete")):
@@ -277,16 +282,35 @@ def not_found(prog, rep):
             if cname != "SqliteStorage":
                 cont = "self._metadata" if cname == "MemoryStorage" else "self.bucket_keys"
                 test = f"{bp} in {cont}"
-                falses = [v for n in g.nodes if n.kind == "branch" and norm(n.ast) == test for v, lab in g.succ[n.id] if lab and lab[2] is False]
+                falses = [v for n in g.nodes if n.kind == "branch" for v, lab in g.succ[n.id] if membership(lab, bp, cont) is False]
                 if falses and raises:
                     ok = all(g.exit not in g.reach_avoiding([v], include_start=True) for v in falses) and any(r.id in g.reach_avoiding([v], include_start=True) for v in falses for r in raises)
                     why = "the not-found branch can return normally"
                 else:
-                    why = f"no `{test}` test with a raising else"
+                    why = f"no `{test}` test with a raising not-found branch"
             else:
                 if m == "delete_bucket":
-                    tests = [n for n in g.nodes if n.kind == "branch" and norm(n.ast) in ("cursor.rowcount != 1", "cursor.rowcount == 0", "cursor.rowcount < 1")]
-                    ok = bool(tests) and bool(raises) and all(raises[0].id == v for v, lab in g.succ[tests[0].id] if lab and lab[2] is True) and g.postdominates(tests[0].id, g.entry)
+                    from ..trace import resolve
+
+                    def _is_rowcount_miss(e):
+                        """<x>.rowcount != 1 / == 0 / < 1, through single-assignment locals -> polarity of 'missing' or None"""
+                        if isinstance(e, ast.Compare) and len(e.ops) == 1 and isinstance(e.comparators[0], ast.Constant):
+                            l = resolve(e.left, fi)
+                            if isinstance(l, ast.Attribute) and l.attr == "rowcount":
+                                k = e.comparators[0].value
+                                op = e.ops[0]
+                                if (isinstance(op, ast.NotEq) and k == 1) or (isinstance(op, ast.Eq) and k == 0) or (isinstance(op, ast.Lt) and k == 1):
+                                    return True
+                                if (isinstance(op, ast.Eq) and k == 1) or (isinstance(op, ast.GtE) and k == 1) or (isinstance(op, ast.Gt) and k == 0):
+                                    return False
+                        return None
+
+                    tests = [(n, _is_rowcount_miss(n.ast)) for n in g.nodes if n.kind == "branch" and _is_rowcount_miss(n.ast) is not None]
+                    ok = False
+                    if tests and raises:
+                        tn, miss_pol = tests[0]
+                        miss = [v for v, lab in g.succ[tn.id] if lab and lab[2] is miss_pol]
+                        ok = bool(miss) and all(g.exit not in g.reach_avoiding([v], include_start=True) for v in miss) and g.postdominates(tn.id, g.entry)
                     why = "no `rowcount != 1 -> raise ValueError` on every path"
                 elif m == "get_metadata":
                     tests = [n for n in g.nodes if n.kind == "branch" and norm(n.ast) in ("row is not None", "row is None", "row")]
